@@ -58,8 +58,21 @@ def main():
     x = torch.zeros(1, dtype=torch.float64)
 
     # ------------------------------------------------------------------ stream 1+2: from_module, to_module (+ the swap back)
+    import json
+    from common import VERIF
+    corpus = [json.loads(pth.read_text()) for pth in sorted((VERIF / "corpus" / "C13").glob("*.json"))]
+    run.count("corpus.cases", len(corpus))
     n_swap = 1200 if quick else 8000
     reqs, ctx = [], []
+    for c in corpus:
+        if c["stream"] != "to_module":
+            continue
+        graph = G.graph_from_sx(c["graph"])
+        tree = G.tree_from_sx(c["tree"], graph["kinds"])
+        world = G.World(graph["kinds"])
+        gsx, tsx, root = G.graph_sx(graph, world), G.tree_sx(tree, world), c.get("root", 0)
+        reqs += [f"(c13.from_module {gsx} {root})", f"(c13.roundtrip {gsx} {root} {tsx})"]
+        ctx.append((graph, world, root, tree, True, gsx, tsx))
     for it in range(n_swap):
         graph = G.gen_graph(rng)
         world = G.World(graph["kinds"])
@@ -81,7 +94,7 @@ def main():
         mods = G.build(graph, world)
         before = G.id_snapshot(mods)
         # from_module
-        with time_limit(10):
+        with time_limit(60):
             fm = TensorDict.from_module(mods[root])
         impl_from = ["ok", G.td_tree(fm, world)] if len(list(fm.keys())) else ["ok", "none"]
         run.corr("from_module", [gsx, root], impl_from, m_from)
@@ -98,7 +111,7 @@ def main():
         if G.td_tree(td, world) != parse_sx(tsx):
             raise Infra("harness: TensorDict construction did not preserve the generated tree")
         try:
-            with time_limit(10):
+            with time_limit(60):
                 s = td.to_module(mods[root])
             stage1 = None
         except Exception as e:  # noqa: BLE001
@@ -110,7 +123,7 @@ def main():
             continue
         s_tree = G.td_tree(s, world)
         try:
-            with time_limit(10):
+            with time_limit(60):
                 back = s.to_module(mods[root], swap_dest=td)
             impl = ["ok", G.snapshot(mods, world), s_tree, G.td_tree(td, world)]
             run.count("swap.outcome", "ok")
@@ -130,6 +143,15 @@ def main():
     # ------------------------------------------------------------------ stream 3: with-block programs
     n_prog = 1200 if quick else 8000
     reqs, ctx = [], []
+    for c in corpus:
+        if c["stream"] != "with_blocks":
+            continue
+        graph = G.graph_from_sx(c["graph"])
+        prog = G.prog_from_sx(c["prog"], graph["kinds"])
+        world = G.World(graph["kinds"])
+        gsx, psx = G.graph_sx(graph, world), G.prog_sx(prog, world)
+        reqs.append(f"(c13.exec {gsx} {psx})")
+        ctx.append((graph, world, prog, gsx, psx))
     for it in range(n_prog):
         graph = G.gen_graph(rng)
         world = G.World(graph["kinds"])
@@ -150,7 +172,7 @@ def main():
         swaps = []
         status = "normal"
         try:
-            with time_limit(20):
+            with time_limit(60):
                 G.run_prog(prog, mods, tds, swaps, x)
         except TimeoutError:
             raise
@@ -186,14 +208,14 @@ def main():
         gsx, tsx = G.graph_sx(graph, world), G.tree_sx(tree, world)
         run.case(("fun", gsx, tsx), nontrivial=len(flat) > 0)
         try:
-            with time_limit(10):
+            with time_limit(60):
                 ref = torch.func.functional_call(mods[0], flat, (x,), strict=False, tie_weights=False)
         except Exception:  # noqa: BLE001  (torch refuses this combination: no reference)
             run.count("functional.ref", "refused")
             continue
         out = None
         try:
-            with time_limit(10):
+            with time_limit(60):
                 with td.to_module(mods[0]):
                     out = mods[0](x)
             run.count("functional.ref", "ok")
@@ -212,6 +234,60 @@ def main():
                             "functional:shared-subtrees-differ" if differ else "functional:output")
         else:
             run.oracle_ok("functional")
+
+    # ------------------------------------------------------------------ stream 5: inplace=True — values
+    n_inp = 300 if quick else 3000
+    reqs, ctx = [], []
+    for it in range(n_inp):
+        graph = G.gen_graph(rng)
+        world = G.World(graph["kinds"])
+        tree = G.gen_tree(rng, graph, world, 0)
+        gsx, tsx = G.graph_sx(graph, world), G.tree_sx(tree, world)
+        reqs.append(f"(c13.inplace {gsx} 0 {tsx})")
+        ctx.append((graph, world, tree, gsx, tsx))
+    answers = ask(drv, reqs)
+    for (graph, world, tree, gsx, tsx), ans in zip(ctx, answers):
+        model = parse_sx(ans)
+        run.case(("inplace", gsx, tsx))
+        mods = G.build(graph, world)
+        before = G.id_snapshot(mods)
+        mod_tids = sorted({t for md in graph["mods"] for _, t, *_ in md["params"] + md["buffers"] + md["plain"] if t is not None})
+        td = G.make_td(tree, world)
+
+        def values():
+            return [[t, int(world.objs[t].item())] for t in mod_tids]
+        try:
+            with time_limit(60), torch.no_grad():
+                s = td.to_module(mods[0], inplace=True)
+                v1 = values()
+                try:
+                    s.to_module(mods[0], inplace=True, swap_dest=td)
+                except KeyError:
+                    # _quick_set into `td` failed after the module loop (shared submodule, different sub-tensordicts)
+                    run.count("inplace.exit", "quick_set-KeyError")
+                v2 = values()
+            impl = ["ok", v1, v2]
+        except TimeoutError:
+            raise
+        except Exception as e:  # noqa: BLE001
+            impl = ["err", err_word(e)]
+        want_order = {t: i for i, (t, _) in enumerate(model[1])} if model[0] == "ok" else {}
+        if impl[0] == "ok" and model[0] == "ok":
+            model = ["ok", sorted(model[1]), sorted(model[2])]
+        run.count("inplace.outcome", impl[0])
+        run.corr("inplace_values", [gsx, tsx], impl, model)
+        if impl[0] == "ok":
+            d = G.diff_snap(before, G.id_snapshot(mods))
+            changed = [t for t, v in impl[2] if v != t]
+            cells = [t for md in graph["mods"] for _, t, *_ in md["params"] + md["buffers"] + md["plain"] if t is not None]
+            tied = all(cells.count(t) > 1 for t in changed)
+            if d:
+                run.oracle_fail("inplace_graph", [gsx, tsx], "inplace=True changed the registry: " + ",".join(d[:4]), "inplace_graph:registry")
+            elif changed:
+                run.oracle_fail("zoo_restore" if tied else "inplace_graph", [gsx, tsx], f"inplace=True: values of tensors {changed} not restored by the swap back",
+                                "zoo:inplace=True:values:tied-tensor" if tied else "inplace_graph:values:untied")
+            else:
+                run.oracle_ok("inplace_graph")
 
     # ------------------------------------------------------------------ extended domain (oracle only)
     import c13_zoo
